@@ -12,6 +12,9 @@ type regressCase struct {
 	Regs map[string]int32
 }
 
+// regressMem: memory size of the cases that need more than 4096 bytes.
+var regressMem = map[string]int{"two-cores-evict-one-L3-line": 16384}
+
 var regressCases = []regressCase{
 	{"D1-negative-result-mvp4", "li t0, -5\naddi t1, t0, 0\nsub t2, zero, t1\n", nil},
 	{"D2-unsigned-compare", "li t0, -1\nli t1, 1\nsltu t2, t1, t0\nbltu t1, t0, L\nli a0, 9\nL:\nbgeu t1, t0, M\nli a1, 9\nM:\n", nil},
@@ -31,6 +34,8 @@ var regressCases = []regressCase{
 	{"F3-load-then-ret", "lw t0, 0(s0)\nret\n", map[string]int32{"s0": 128}},
 	{"same-cycle-flushes-oldest-wins", "and t3, zero, t0\nsrl zero, a0, t2\nli s3, 3\nL8:\nli a2, 1\nlb t1, 47(s0)\nand a1, zero, t1\nsh t3, 52, s0\naddi s3, s3, -1\nbnez s3, L8\njal a2, L10\nL10:\n", map[string]int32{"s0": 2384, "t0": 820, "a0": 5, "t2": 27}},
 	{"text-after-ret", "li a0, 1\nlw t0, 0(s0)\nret\nli a0, 2\nadd t0, t0, t0\nsw a0, 4(s0)\n", map[string]int32{"s0": 128}},
+	{"stale-snoop-command-after-flush", "addi t2, t4, -4\nlw t4, 0(s2)\nli a1, -30\nlw a2, 1476(zero)\naddi t4, zero, 36\naddi t4, zero, 81\naddi t4, zero, 77\naddi t4, zero, 70\naddi t4, zero, 63\nlw a2, 1280(zero)\naddi t4, zero, 28\naddi t4, zero, 91\naddi t4, zero, 41\naddi t4, zero, 37\naddi t4, zero, 38\naddi t4, zero, 80\nlw a2, 1536(zero)\nlw a0, 0(s0)\nbltu a0, a1, L1\naddi t0, t4, 47\nsub t4, t1, t3\nlw t3, 8(s2)\nL1:\nsw t0, 64(s2)\nsw t3, 76(s2)\nsw t4, 80(s2)\nsw a0, 84(s2)\nlw a2, 0(s1)\nlw t4, 4(s2)\nret\n", map[string]int32{"a0": -369, "s0": 256, "s1": 536, "s2": 1024, "t0": 820, "t1": 368, "t2": -56, "t3": -426, "t4": -295}},
+	{"two-cores-evict-one-L3-line", "li s0, 4872\nli s3, 50\nL1:\nsh a0, 4, s0\naddi s0, s0, 68\naddi s3, s3, -1\nbnez s3, L1\nsh a0, 4, s1\nli s0, 4628\nsb a0, -8(s0)\nli s1, 9056\nlb t0, 10(s1)\nxor a0, a0, t0\nli s2, 11192\nsw a0, -4(s2)\nli s0, 1420\nsh a0, -10, s0\nli s0, 2200\nsw a0, -28(s0)\nlw t2, 0(s0)\n", map[string]int32{"s0": 10552, "s1": 8856, "s2": 6500, "t0": 1, "t1": 88, "t3": 372, "t4": 8192}},
 	{"F3-load-add-ret", "lw t0, 0(s0)\nlw t1, 64(s0)\nadd t2, t0, t1\nret\n", map[string]int32{"s0": 128}},
 }
 
@@ -41,7 +46,11 @@ var regressErrCases = []regressCase{
 }
 
 func regressInput(c regressCase) caseInput {
-	in := caseInput{Src: c.Src, Mem: make([]int8, 4096)}
+	n := regressMem[c.Name]
+	if n == 0 {
+		n = 4096
+	}
+	in := caseInput{Src: c.Src, Mem: make([]int8, n)}
 	for i := range in.Mem {
 		in.Mem[i] = int8(i*7 + 1)
 	}
